@@ -210,7 +210,10 @@ def run_case(ctx, case):
     # range
     if m != 'bures_metric':
         ctx.case('range', sig)
-        if np.any(got > 1 + 1e-9) or np.any(got < -1 - 1e-9):
+        # (the matrix square roots of the Bures similarity are accurate to ~1e-8 only: a self-similarity of
+        # 1 + 7e-9 was seen on the unchanged tree, with the reference agreeing to 1e-10)
+        rtol = max(1e-9, at) if m.startswith('bures') else 1e-9
+        if np.any(got > 1 + rtol) or np.any(got < -1 - rtol):
             ctx.fail('range', sig, f'value outside [-1,1]: {got.tolist()}', wit())
     # symmetry
     ok, got_t = ctx.guarded('symmetry', sig, compare, b, a, method=m, data=wit, **kw)
